@@ -63,7 +63,7 @@ func main() {
 		"(equal, older, newer), expiries at phase midpoints, in the past and far away; " +
 		"non-trivial = insert or a lookup of a key that was inserted before; distinct by op line"
 	nCaches := e.N(1500, 12000)
-	nPhases := e.N(4, 10)
+	nPhases := e.N(4, 20)
 	opsPerPhase := e.N(9, 9)
 	ctx := context.Background()
 
@@ -77,7 +77,7 @@ func main() {
 		cc := &cacheCase{idx: i, c: memrevcache.New(), r: r, last: map[revcache.Key]*path_mgmt.RevInfo{}}
 		nk := r.Range(2, 4)
 		for len(cc.keys) < nk {
-			k := revcache.NewKey(ias[r.Intn(2)], iface.ID(r.Range(1, 3)))
+			k := revcache.Key{IA: ias[r.Intn(2)], IfID: iface.ID(r.Range(1, 3))}
 			dup := false
 			for _, x := range cc.keys {
 				dup = dup || x == k
@@ -225,7 +225,7 @@ func (cc *cacheCase) oneOp(ctx context.Context, e *vlib.Env, base, planned time.
 		}
 	case k < 85: // get
 		if r.Chance(10) {
-			key = revcache.NewKey(key.IA, 9) // never inserted
+			key = revcache.Key{IA: key.IA, IfID: 9} // never inserted
 		}
 		op := fmt.Sprintf("get %d %d %d", nowRelMs, uint64(key.IA), key.IfID)
 		var got *path_mgmt.RevInfo
